@@ -18,3 +18,17 @@ OBLIGATIONS = [
     ob('C01.pure', 'h_c01_pure', 'fpu', [(0, 2), (1, 2)], ['query stores only to fresh memory', 'end'], 'L=2 entries, 2 stub features; write-set recorded by the executor', cases_thorough=[(0, 3), (1, 3)]),
     ob('C01.grainsrt', 'h_c01_grains_roundtrip', 'fp', [(0, 0), (1, 0), (2, 1), (3, 2)], ['grains round trip leaves other slots alone', 'end'], 'k<=3 grains, start offset <=2'),
 ]
+
+# C01.pure.models: "not on earlier queries, not on other worlds alive in the process" also needs every model query to be free of hidden state:
+# the generated all-model harness (pure_gen.py, shared with C14.pure.models / C13.mem.models) records the write-set of one query per model class
+def _add_models():
+    import pure_gen
+    path, ms = pure_gen.generate()
+    tus = [path] + TUS[1:] + ['objects/surface', 'kd_tree', 'features/feature_utilities', 'objects/distance_from_surface'] + sorted(set(m['tu'] for m in ms)) \
+          + sorted(set('features/%s_models/%s/interface' % (m['family'], m['kind']) for m in ms))
+    skip = [i for i, m in enumerate(ms) if m['cls'] == 'MassConserving']
+    OBLIGATIONS.append(dict(id='C01.pure.models', harness=path, entry='h_pure_model', mode='fpa', cases=[(i,) for i in range(len(ms)) if i not in skip], cases_thorough=[(i,) for i in range(len(ms))], expect=['end'], tus=tus,
+        native=False, allow_throw=True, slicing=False, time_cap=270, bounds='every model class under include/world_builder/features/*_models (%d classes, list regenerated from the tree); one query with arbitrary arguments per class' % len(ms),
+        stubs=['Parameters API stub', 'World::properties (recursive), ridge geometry, Surface::local_value and the Mersenne Twister step return arbitrary values', 'arithmetic abstracted (fpa): only the write-set is claimed'],
+        assumes=['random models may write the world\'s own random engine (C15)'], outside=['slab/fault property functions']))
+_add_models()
